@@ -84,6 +84,26 @@ def rule_MP2(rep, prog, k):
                 "_dispatch_once_callout publishes DONE / wakes waiters before the initialiser has run", sample={"callouts": len(cc), "broadcasts": len(bc)})
     # broadcast wakes when other bits than own tid were present
     rule_wake_all(rep, rid, prog, "_dispatch_gate_broadcast_slow")
+    # ... and the fast path skips the wake-up only when the exchanged value was EXACTLY the owner's lock value: concrete evaluation of the
+    # branch for the gate values self|WAITERS_BIT and self|FAILED_TRYLOCK_BIT (any masked comparison would treat them as "no waiters")
+    fn = prog.fn("_dispatch_once_gate_broadcast")
+    rep.saw(fn)
+    me = calls_named(fn, "_dispatch_lock_value_for_self")
+    xc = calls_named(fn, "_dispatch_once_mark_done") + [i for i in fn.all_insts() if i.op == "atomicrmw" and i.d.get("rmw") == "xchg"]
+    slow = calls_named(fn, "_dispatch_gate_broadcast_slow")
+    if len(me) != 1 or len(xc) != 1 or not slow:
+        rep.unknown(rid, "anchor vanished in _dispatch_once_gate_broadcast (self=%d exchange=%d slow=%d)" % (len(me), len(xc), len(slow)))
+    else:
+        lk = consts.get(["DLOCK_WAITERS_BIT", "DLOCK_FAILED_TRYLOCK_BIT"], unit="shims/lock")
+        SELF = 0x1234 << 2
+        res = {}
+        for nm in ("DLOCK_WAITERS_BIT", "DLOCK_FAILED_TRYLOCK_BIT"):
+            res[nm] = concrete_run(fn, {me[0].id: SELF, xc[0].id: SELF | lk[nm]}, slow)
+        res["exact"] = concrete_run(fn, {me[0].id: SELF, xc[0].id: SELF}, slow)
+        rep.require(rid, res["DLOCK_WAITERS_BIT"] is True and res["DLOCK_FAILED_TRYLOCK_BIT"] is True and res["exact"] is not None, slow[0].loc, fn.name,
+                    "once-broadcast-skipped-with-waiters",
+                    "_dispatch_once_gate_broadcast does not reach _dispatch_gate_broadcast_slow when the gate held the owner's value plus the waiters bit "
+                    "(concrete evaluation %s): callers already parked in the kernel are never woken although the gate is DONE" % res, sample={"concrete": res})
     # waiter
     rule_recheck_after_wait(rep, rid, prog, "_dispatch_once_wait", "dgo_once", ("_dispatch_futex_wait", "_dispatch_unfair_lock_wait"), need_acquire=False)
     fn = prog.fn("_dispatch_once_wait")
@@ -144,6 +164,8 @@ def run(rep, tier="quick", srcdir=None, only=None):
         rule_MP2(rep, prog, k)
     if want("C09-HDR3"):
         rule_HDR(rep, srcdir)
+    if want("C09-FK"):
+        rule_futex_key(rep, "C09", prog)
 
 
 MANIFEST = {
